@@ -22,6 +22,12 @@ PARTITION_GET = "fjall::partition::PartitionHandle::get"
 HASHSET_INSERT = "std::collections::hash::set::HashSet::<T, S, A>::insert"
 HASHSET_REMOVE = "std::collections::hash::set::HashSet::<T, S, A>::remove"
 HASHSET_CONTAINS = "std::collections::hash::set::HashSet::<T, S, A>::contains"
+# the context registry may be any std set: an ordered BTreeSet serves `contains / insert / remove` the same way
+BTREESET = "alloc::collections::btree::set::BTreeSet::<T, A>::"
+SET_PREFIXES = ("std::collections::hash::set::HashSet::<T, S, A>::", BTREESET)
+SET_INSERT = (HASHSET_INSERT, BTREESET + "insert")
+SET_REMOVE = (HASHSET_REMOVE, BTREESET + "remove")
+SET_CONTAINS = (HASHSET_CONTAINS, BTREESET + "contains")
 THREAD_SPAWN = "std::thread::functions::spawn"
 THREAD_BUILDER_SPAWN = "std::thread::builder::Builder::spawn"      # Builder::new().name(..).spawn(f): the closure is argument 1
 THREAD_SPAWNS = (THREAD_SPAWN, THREAD_BUILDER_SPAWN)
